@@ -1,10 +1,8 @@
 #!/usr/bin/env python3
-"""Development tool: (re)creates the hand-minimised C01 known-finding replay files and their
-entries in known_findings.json. Each case is run through `vcheck --replay` to obtain the exact
-signature. Not used at check run time."""
-import json, os, subprocess, sys, re
-ROOT = os.path.dirname(os.path.dirname(os.path.abspath(__file__)))
-VC = os.path.join(ROOT, "harness/target/release/vcheck")
+"""Development tool: (re)creates the hand-minimised C01/C02 known-finding replay files."""
+import sys, os
+sys.path.insert(0, os.path.dirname(os.path.abspath(__file__)))
+from findings_lib import register
 def case(ops, profile="Full", locale="en", language="en"):
     return {"locale": locale, "language": language, "profile": profile, "ops": ops}
 def inp(r, c, t, s=0): return {"Input": {"s": s, "row": r, "col": c, "text": t}}
@@ -50,22 +48,19 @@ F = [
  ("named-style-update-after-restyle", case([{"NamedStyleCreate": {"name":"MyStyle","num_only":False,"style":{"border":{},"fill":{"color":"#123ABC"},"font":{"color":"#FF0000","family":2,"name":"Inter","scheme":"minor","sz":10},"num_fmt":"#,##0.00","quote_prefix":False}}}, {"NamedStyleApply": {"name":"MyStyle"}}, {"NamedStyleUpdate": {"name":"MyStyle","new_name":"MyStyle","num_only":False,"style":{"border":{},"fill":{"color":"#FF0000"},"font":{"color":"#00FF00","family":2,"name":"Inter","scheme":"minor","sz":10},"num_fmt":"general","quote_prefix":False}}}, {"PasteStyles": {"h":1,"w":1,"style":{"border":{},"fill":{"color":"#FF0000"},"font":{"color":"#FF0000","family":2,"name":"Inter","scheme":"minor","sz":10},"num_fmt":"general","quote_prefix":False}}}]),
   "undo of a cell style change re-applies the old style as explicit formatting, losing the cell's link to its named style; undoing an earlier update of that named style then no longer reverts the cell", []),
 ]
-kf_path = os.path.join(ROOT, "known_findings.json")
-kf = json.load(open(kf_path))
-kf["findings"] = [f for f in kf["findings"] if f["property"] != "C01"]
-os.makedirs(os.path.join(ROOT, "replays/C01"), exist_ok=True)
-for slug, c, what, avoid in F:
-    rel = f"replays/C01/{slug}.json"
-    path = os.path.join(ROOT, rel)
-    doc = {"property": "C01", "campaign": "histories", "case": c}
-    json.dump(doc, open(path, "w"), indent=1, ensure_ascii=False)
-    out = subprocess.run([VC, "--replay", path], capture_output=True, text=True).stdout
-    m = re.search(r"signature=(.*)", out)
-    if not m:
-        print("NO FAILURE for", slug, out); os.remove(path); continue
-    doc["signature"] = m.group(1).strip()
-    doc["detail"] = out.split("detail:",1)[1].strip()[:2000] if "detail:" in out else ""
-    json.dump(doc, open(path, "w"), indent=1, ensure_ascii=False)
-    kf["findings"].append({"property": "C01", "signature": doc["signature"], "what": what, "replay": rel, "avoid": avoid, "in_campaigns": slug == "input-implies-format"})
-    print(slug, "->", doc["signature"])
-json.dump(kf, open(kf_path, "w"), indent=1, ensure_ascii=False)
+
+register("C01", "histories", [(slug, c, what, avoid, slug == "input-implies-format") for slug, c, what, avoid in F])
+
+F2 = [
+ ("autofill-redo-retypes-exponent", case([inp(6,8,"123456789012345678"), {"AutofillRows": {"a": A(0,6,7,2,1), "to_row": 5}}, "Undo", "Redo"]),
+  "redo replays cell values by re-typing their display text: an auto-filled 18-digit number is re-typed as 1.23456789012346E+17 and gets the exponent format it did not have after the original operation", [], False),
+]
+register("C02", "walk", F2)
+
+arr = [{"ArrayFormula": {"s":0,"row":2,"col":2,"w":2,"h":2,"text":"=A1:B2+1"}}]
+F4 = [
+ ("cut-paste-splitting-array", {"profile":"Edit","prefix":[{"UpdateStyle": {"a": A(0,1,1,3,3), "path":"font.i","value":"true"}}, inp(1,1,"0")],
+   "bad": {"reason":"splits-array-formula","setup":arr,"op":{"CopyPaste": {"src": A(0,3,3,1,1), "ts":0,"trow":6,"tcol":6,"cut":True}}}},
+  "cutting a cell out of a CSE array formula returns Err (it would split the array) after the paste target has already received the source cell's style", [], True),
+]
+register("C04", "random-prefix", F4)
